@@ -4,13 +4,15 @@
   reset                                           → ok            (empty server, no connections; switches kept)
   switches                                        → evalshaDb0=<0|1> scriptDbCmdsDb0=<0|1> execSelectNoop=<0|1>   (initially: read off Gen/Dispatch.lean)
   switches <name>=<0|1> …                         → ok
+  luaquirks                                       → the conversion switches of Gen/Lua.lean (`Gen.luaQuirksSeen`) the script replies are converted with
   req <conn> <now> <obs> plain <arg-hex>…         → <reply> # <served> # <accesses> # <spec reply> # <spec served> # same|differ # <sel>
   req <conn> <now> _ script <0|1> <cmd>/<cmd>…    → (same)       cmd = arg-hex joined by `,`; 1 = EVALSHA, 0 = EVAL
       reply: a frame (errors as `( e )`) or `noreply`; served: `.` or `<conn>:<frame>` joined by ` ;; `;
       accesses: `.` or `<path>:<db>:<sel>` joined by `,` (what the code variant did);
       the state follows the code variant (current switches); the spec reply / post-state are those of `Switches.fixed`
       from the same pre-state; `same` compares stores, selections, MULTI and blocked flags of all connections seen so far.
-      Script replies (also inside an EXEC reply) are passed through the Lua conversion of lua_engine.rs.
+      Script replies (also inside an EXEC reply) are passed through C12's model of the Lua conversion (Model/Lua.lean) with the
+      switches regenerated from lua_engine.rs (Gen/Lua.lean).
   dumpall <now>                                   → 16 canonical dumps joined by ` || `
   sels <conn>…                                    → selections, blank-separated
   probe <now> <arg-hex>…                          → the reply this command would get on each of the 16 databases, joined by ` || ` (state unchanged)
@@ -18,23 +20,27 @@
 import FerrousSpec.Drv.Util
 import FerrousSpec.Drv.Keyspace
 import FerrousSpec.Proofs.DbsCode
+import FerrousSpec.Model.Lua
+import FerrousSpec.Gen.Lua
 namespace Ferrous.Drv.Dbs
 open Ferrous Ferrous.Drv Ferrous.KS Ferrous.Dbs
 
-def isNilF : Frame → Bool
-  | .nullBulk => true
-  | .nullArray => true
-  | _ => false
+/-- The reply conversion of the script path is C12's subject: its model (Model/Lua.lean: `respToLua` then `luaToResp`,
+    i.e. `resp_frame_to_lua_value` followed by `lua_value_to_resp` for the wrapper script's `return redis.call(..)`) is
+    used as it is, with the quirk switches the translator reads off lua_engine.rs on every run (`Gen.luaQuirksSeen`,
+    translator/lua_tables.py) — a conversion fix in /repo flips a generated switch and this driver follows. -/
+def seen (name : String) : Bool :=
+  match Gen.luaQuirksSeen.find? (fun p => p.1 == name) with
+  | some p => p.2
+  | none => false
 
-/-- `resp_frame_to_lua_value` followed by `lua_value_to_resp` (lua_engine.rs): status → bulk, nil array → nil,
-    a table ends at its first nil, the empty table is nil. -/
-partial def luaConv : Frame → Frame
-  | .simple b => .bulk b
-  | .nullArray => .nullBulk
-  | .array xs =>
-    let ys := (xs.map luaConv).takeWhile (fun f => !isNilF f)
-    if ys.isEmpty then .nullBulk else .array ys
-  | f => f
+def luaQuirks : Lua.Quirks :=
+  { nilBulkIsNil := seen "nilBulkIsNil", statusIsString := seen "statusIsString", lossyStrings := seen "lossyStrings",
+    pcallErrIsNil := seen "pcallErrIsNil", falseIsZero := seen "falseIsZero", fracIsBulk := seen "fracIsBulk",
+    emptyTableIsNil := seen "emptyTableIsNil", okErrTablesIgnored := seen "okErrTablesIgnored",
+    utf8ArgsOnly := seen "utf8ArgsOnly", evalshaDb0 := seen "evalshaDb0" }
+
+def luaConv (f : Frame) : Frame := Lua.luaToResp luaQuirks (Lua.respToLua luaQuirks f)
 
 def showPath : Path → String
   | .direct => "direct"
@@ -109,6 +115,8 @@ def step (st : St) (ws : List String) : St × String :=
   | ["reset"] => ({ st with s := {}, seen := [] }, "ok")
   | ["switches"] =>
     (st, s!"evalshaDb0={b01 st.w.evalshaDb0} scriptDbCmdsDb0={b01 st.w.scriptDbCmdsDb0} execSelectNoop={b01 st.w.execSelectNoop}")
+  | ["luaquirks"] =>
+    (st, String.intercalate " " (Gen.luaQuirksSeen.map fun p => s!"{p.1}={b01 p.2}"))
   | "switches" :: kvs =>
     match kvs.foldlM setSwitch st.w with
     | some w => ({ st with w := w }, "ok")
